@@ -65,6 +65,10 @@ func (c *ContentTypeMismatchError) Error() string {
 	return fmt.Sprintf("content type mismatch: got %q, want %q", c.Got, c.Want)
 }
 
+// maxPrealloc is the largest declared content length for which Recv will
+// allocate a buffer before the content has been received.
+const maxPrealloc = 1 << 24
+
 // An hdr implements Channel. Messages sent on a hdr channel are framed as a
 // header/body transaction, similar to HTTP.
 type hdr struct {
@@ -140,6 +144,19 @@ func (h *hdr) Recv() ([]byte, error) {
 	// big enough buffer to deliver the whole message, and will only issue a
 	// single read to the underlying source.
 	data := h.rbuf
+	if size > maxPrealloc && len(data) < size {
+		// Do not trust a very large declared length enough to allocate for it
+		// up front: read incrementally, so that memory use is bounded by the
+		// data actually received.
+		var buf bytes.Buffer
+		if n, err := io.CopyN(&buf, h.rd, int64(size)); err != nil {
+			if err == io.EOF && n > 0 {
+				err = io.ErrUnexpectedEOF
+			}
+			return nil, err
+		}
+		return buf.Bytes(), contentErr
+	}
 	if len(data) < size || len(data) > (1<<20) && size < len(data)/4 {
 		data = make([]byte, size*2)
 		h.rbuf = data
